@@ -264,6 +264,9 @@ pub struct LogEntry {
     /// bytes as text, bin/build present)
     #[serde(default)]
     pub bp_dirs: Vec<(String, String, bool)>,
+    /// resources ("images/<name>", "volumes/<name>", "containers/<name>") this command deleted
+    #[serde(default)]
+    pub removed: Vec<String>,
 }
 
 pub struct RunResult {
@@ -518,10 +521,17 @@ pub fn judge_c16(s: &Scenario, r: &RunResult) -> Vec<String> {
         }
     }
     let mut check = |what: &str, name: &str, sub: &[&str]| {
+        // a removal of this resource: a removal command that names it, or any command that
+        // actually deleted it (e.g. `rmi <image id>` takes every name of that image with it)
+        let kind = match sub[0] {
+            "rm" => "containers",
+            "rmi" => "images",
+            _ => "volumes",
+        };
         let removals: Vec<u64> = r
             .log
             .iter()
-            .filter(|e| removal(e) && sub.contains(&e.argv[0].as_str()) && e.argv.iter().any(|a| a == name))
+            .filter(|e| (removal(e) && sub.contains(&e.argv[0].as_str()) && e.argv.iter().any(|a| a == name)) || e.removed.iter().any(|x| *x == format!("{kind}/{name}")))
             .map(|e| e.i)
             .collect();
         let last_use = r
@@ -557,13 +567,25 @@ fn chain_of(s: &Scenario) -> Vec<&BuildNode> {
 
 /// ... together with the index of the root (independent build, own image) each belongs to.
 fn chain_with_roots(s: &Scenario) -> Vec<(&BuildNode, usize)> {
-    let mut chain: Vec<(&BuildNode, usize)> = Vec::new();
-    for (ri, root) in std::iter::once(&s.root).chain(s.more_roots.iter()).enumerate() {
+    fn walk<'a>(root: &'a BuildNode, ri: usize, chain: &mut Vec<(&'a BuildNode, usize)>) {
         let mut cur = Some(root);
+        let mut nested: Vec<(&'a BuildNode, usize)> = Vec::new();
         while let Some(n) = cur {
             chain.push((n, ri));
+            for st in &n.steps {
+                if let Step::NestedBuild { id, node } = st {
+                    nested.push((&**node, *id));
+                }
+            }
             cur = n.steps.iter().find_map(|st| if let Step::Rebuild(b) = st { Some(&**b) } else { None });
         }
+        for (node, id) in nested {
+            walk(node, id, chain);
+        }
+    }
+    let mut chain: Vec<(&BuildNode, usize)> = Vec::new();
+    for (ri, root) in std::iter::once(&s.root).chain(s.more_roots.iter()).enumerate() {
+        walk(root, ri, &mut chain);
     }
     chain
 }
@@ -597,7 +619,12 @@ pub fn judge_c17(s: &Scenario, r: &RunResult) -> Vec<String> {
     // its configurations in order against its pack builds, its containers against the docker
     // runs that use its image
     let mut claimed: BTreeSet<u64> = BTreeSet::new();
-    for ri in 0..=s.more_roots.len() {
+    let mut root_ids: Vec<usize> = all.iter().map(|(_, ri)| *ri).collect();
+    root_ids.dedup();
+    root_ids.sort_unstable();
+    root_ids.dedup();
+    let several = root_ids.len() > 1;
+    for ri in root_ids {
         let chain: Vec<&BuildNode> = all.iter().filter(|(_, x)| *x == ri).map(|(n, _)| *n).collect();
         let builds: Vec<&LogEntry> = pack_builds.iter().copied().filter(|e| root_of_build(e) == Some(ri)).collect();
         let image = builds.first().and_then(|e| parse_pack_build(&e.argv[1..]).ok()).map(|p| p.image);
@@ -610,7 +637,7 @@ pub fn judge_c17(s: &Scenario, r: &RunResult) -> Vec<String> {
         // without an injected fault the first configuration of every independent build reaches
         // pack, whatever happened to the builds before it in the same process — unless its own
         // preparation cannot succeed (fixture cannot be copied, own crate does not compile)
-        if s.fault == Fault::None && builds.is_empty() {
+        if s.fault == Fault::None && builds.is_empty() && ri <= s.more_roots.len() {
             if let Some(first) = chain.first() {
                 let prep_fails = (s.fixture_uncopyable && first.cfg.preprocessor.is_some()) || (s.crate_broken && first.cfg.own_buildpack.is_some());
                 if !prep_fails {
@@ -618,7 +645,7 @@ pub fn judge_c17(s: &Scenario, r: &RunResult) -> Vec<String> {
                 }
             }
         }
-        v.extend(judge_c17_root(ri, &chain, &builds, &runs, r).into_iter().map(|l| if s.more_roots.is_empty() { l } else { format!("build {ri}: {l}") }));
+        v.extend(judge_c17_root(ri, &chain, &builds, &runs, r).into_iter().map(|l| if several { format!("build {ri}: {l}") } else { l }));
     }
     for e in &docker_runs {
         if !claimed.contains(&e.i) {
@@ -918,6 +945,13 @@ fn simplify(s: &Scenario) -> Vec<Scenario> {
         }
         for (i, st) in n.steps.iter().enumerate() {
             match st {
+                Step::NestedBuild { id, node } => {
+                    for nb in variants(node) {
+                        let mut c = n.clone();
+                        c.steps[i] = Step::NestedBuild { id: *id, node: Box::new(nb) };
+                        v.push(c);
+                    }
+                }
                 Step::Rebuild(b) => {
                     for nb in variants(b) {
                         let mut c = n.clone();
